@@ -75,15 +75,18 @@ def run_property(prop: str, root: str, tier: str, seed: int, evidence_dir=None, 
             extra.update(selftest_summary(prop, root, seed))
     floor_errors = []
     floor = getattr(mod, 'FLOOR', 1)
-    n_decided = sum(1 for o in obs.items if o.verdict in (DISCHARGED, VIOLATED))
+    # floors guard against a rule that no longer MATCHES any site (vanished anchors -> vacuous pass).  An instance that was found
+    # but could not be decided (undecided: the idiom changed) still counts as matched - it is reported as undecided, not hidden.
+    from .report import UNDECIDED
+    n_decided = sum(1 for o in obs.items if o.verdict in (DISCHARGED, VIOLATED, UNDECIDED))
     if n_decided < floor:
-        floor_errors.append(f'{prop}: only {n_decided} obligations decided, floor is {floor} '
+        floor_errors.append(f'{prop}: only {n_decided} obligations instantiated, floor is {floor} '
                             f'(rule instances vanished - the check would pass vacuously)')
     rule_floors = getattr(mod, 'RULE_FLOORS', {})
     for rule, fl in rule_floors.items():
-        n = sum(1 for o in obs.items if o.rule == rule and o.verdict in (DISCHARGED, VIOLATED))
+        n = sum(1 for o in obs.items if o.rule == rule and o.verdict in (DISCHARGED, VIOLATED, UNDECIDED))
         if n < fl:
-            floor_errors.append(f'{prop}: rule {rule} decided {n} instances, floor is {fl}')
+            floor_errors.append(f'{prop}: rule {rule} matched {n} instances, floor is {fl}')
     for key, fl in getattr(mod, 'ANALYSED_FLOORS', {}).items():
         if int(obs.analysed.get(key, 0)) < fl:
             floor_errors.append(f'{prop}: analysed[{key}] = {obs.analysed.get(key, 0)}, floor is {fl}')
